@@ -1,15 +1,16 @@
 #!/bin/bash
 # seed_all.sh [tier] : run every stored seeded change against the check of the property it breaks.
 # Prints one line per change: DETECTED / MISSED. /repo is restored after each.
-cd /verif
-export VERIF_EVIDENCE_DIR=/verif/.build/seed-evidence
+V=$(cd "$(dirname "$0")/.." && pwd); R=${VERIF_REPO:-/repo}
+cd "$V"
+export VERIF_EVIDENCE_DIR=$V/.build/seed-evidence
 TIER=${1:-quick}
 for d in seeded/*/; do
   id=$(basename "$d"); case "$id" in *-dropped) continue;; esac; prop=${id%-*}
-  if ! git -C /repo apply --check "/verif/$d/patch.diff" 2>/dev/null; then echo "$id: PATCH-DOES-NOT-APPLY"; continue; fi
-  git -C /repo apply "/verif/$d/patch.diff"
+  if ! git -C "$R" apply --check "$V/$d/patch.diff" 2>/dev/null; then echo "$id: PATCH-DOES-NOT-APPLY"; continue; fi
+  git -C "$R" apply "$V/$d/patch.diff"
   out=$(./check "$prop" "$TIER" 2>&1)
-  git -C /repo checkout -- . >/dev/null 2>&1
+  git -C "$R" checkout -- . >/dev/null 2>&1
   if echo "$out" | grep -q "^VIOLATION property=$prop"; then
     echo "$id: DETECTED $(echo "$out" | grep '^VIOLATION' | head -1 | sed 's/.*replay=[^ ]*//')"
   else
@@ -17,4 +18,4 @@ for d in seeded/*/; do
   fi
 done
 # leave the build products matching the unchanged tree
-(cd /verif/harness && GOFLAGS=-mod=mod GOPROXY=off GOSUMDB=off GOTOOLCHAIN=local go build -tags verif -o /verif/.build/harness . ) && (cd /repo && go build -o /verif/.build/taskctl ./cmd/taskctl)
+(cd "$V/harness" && GOFLAGS=-mod=mod GOPROXY=off GOSUMDB=off GOTOOLCHAIN=local go build -tags verif -o "$V/.build/harness" . ) && (cd "$R" && go build -o "$V/.build/taskctl" ./cmd/taskctl)
